@@ -119,4 +119,14 @@ theorem C05 : C05_full :=
    fun d => C05_json _ d ks200, C05_none _ ks200, fun cs => C05_iter _ cs _ (Or.inl rfl) ks200, C05_junk _ ks200,
    C05_resp _⟩
 
+/-! ### non-vacuity -/
+
+/-- non-vacuity of `C05_headers`: a 304 carrying an ETag is emitted with exactly its headers and no body,
+    a 200 with a body gets Content-Type and Content-Length added -/
+example : emit Gen.Reasons.table ⟨.base, 304, [("ETag".toList, "x".toList)], "text/html".toList, [[1, 2]], 2⟩
+    = some ⟨304, "Not Modified", [("ETag".toList, "x".toList)], []⟩ := by decide
+
+example : (emit Gen.Reasons.table ⟨.base, 200, [], "a/b".toList, [[1], [2, 3]], 3⟩).map (·.body) = some [1, 2, 3] := by
+  decide
+
 end Poor.Props.C05
